@@ -11,7 +11,7 @@ from sa.term import Rat, Vec
 from spec import formulas
 from spec.formulas import V
 
-from .common import eq_term, evaluate_global, events, returns, show, term_of
+from .common import beamline_graph, eq_term, events, returns, show, term_of
 
 GEOM = {
     'straight_incident_beam': lambda: V('sample_position') - V('source_position'),
@@ -119,10 +119,8 @@ def run(tier: str) -> Run:
     # graph tables
     r6 = run.rule('R6', 'beamline graph entries are one-step sound against the Euclidean definitions', 7)
     D = None
-    for tbl, ltot in (('_SCATTER_GRAPH_BEAMLINE', 'Ltotal'), ('_NO_SCATTER_GRAPH_BEAMLINE', 'Ltotal_no_scatter')):
-        table = evaluate_global(repo, 'conversion.graph.beamline', tbl)
-        if not isinstance(table, dict) or not table:
-            raise AnalysisError(f'{tbl} is not a literal table')
+    for tbl, scatter, ltot in (('beamline(scatter=True)', True, 'Ltotal'), ('beamline(scatter=False)', False, 'Ltotal_no_scatter')):
+        table = beamline_graph(repo, scatter)  # through the public factory, not a private table name
         for key, ref in table.items():
             if not isinstance(ref, FuncRef):
                 raise AnalysisError(f'{tbl}[{key!r}] is not a function of the package')
